@@ -27,6 +27,13 @@ pub proof fn lemma_val(es: Seq<Tv>, t: int)
     if p < t { assert(!(es[p].0 == es[t].0 && es[p].1 == es[t].1)); } else if t < p { assert(!(es[t].0 == es[p].0 && es[t].1 == es[p].1)); }
 }
 
+/// sprs::PermView by its index map i |-> at(i) (ASSUMED: a permutation of 0..dim)
+pub struct PermView { pub m: Ghost<Seq<usize>> }
+impl PermView {
+    pub open spec fn wf(&self, n: int) -> bool { self.m@.len() == n && (forall|i: int| 0 <= i < n ==> (#[trigger] self.m@[i]) < n) && (forall|i: int, j: int| 0 <= i < j < n ==> #[trigger] self.m@[i] != #[trigger] self.m@[j]) }
+    #[verifier::external_body] pub fn at(&self, i: usize) -> (r: usize) requires i < self.m@.len() ensures r == self.m@[i as int] { unimplemented!() }
+    #[verifier::external_body] pub fn identity(n: usize) -> (r: PermView) ensures r.m@.len() == n, forall|i: int| 0 <= i < n ==> #[trigger] r.m@[i] == i { unimplemented!() }
+}
 pub struct SpMat { pub sh: Ghost<(usize, usize)>, pub es: Ghost<Seq<Tv>> }
 impl SpMat {
     pub open spec fn wf(&self) -> bool { distinct(self.es@) && inside(self.es@, self.sh@.0 as int, self.sh@.1 as int) }
@@ -166,6 +173,89 @@ impl SpMat {
     //@+ post
     //@| lemma_bsel_done(es0, k as int, l as int, 0, 0, m0, n0); lemma_bsel_done(es0, k as int, l as int, 0, 1, m0, n0);
     //@| lemma_bsel_done(es0, k as int, l as int, 1, 0, m0, n0); lemma_bsel_done(es0, k as int, l as int, 1, 1, m0, n0);
+
+    // ---------------------------------------------------------------- extract and its clients
+    /// ASSUMED (from_entries over `self.iter().filter_map(..)`, lazy adaptors): for a position map f that is a function and injective where it
+    /// is defined, the result has exactly the stored entries of self moved to f(position); positions outside `shape` do not return
+    #[verifier::external_body] pub fn extract<F: Fn(usize, usize) -> Option<(usize, usize)>>(&self, shape: (usize, usize), f: F) -> (r: SpMat)
+        requires self.wf(), forall|t: int| 0 <= t < self.es@.len() ==> f.requires(((#[trigger] self.es@[t]).0, self.es@[t].1)),
+            forall|t: int, r1: Option<(usize, usize)>, r2: Option<(usize, usize)>| 0 <= t < self.es@.len() && #[trigger] f.ensures((self.es@[t].0, self.es@[t].1), r1) && #[trigger] f.ensures((self.es@[t].0, self.es@[t].1), r2) ==> r1 == r2,
+            forall|s: int, t: int, r: Option<(usize, usize)>| 0 <= s < self.es@.len() && 0 <= t < self.es@.len() && #[trigger] f.ensures((self.es@[s].0, self.es@[s].1), r) && #[trigger] f.ensures((self.es@[t].0, self.es@[t].1), r) && r.is_some() ==> s == t,
+        ensures r.sh@ == shape, r.wf(),
+            forall|t: int| 0 <= t < self.es@.len() ==> exists|o: Option<(usize, usize)>| f.ensures(((#[trigger] self.es@[t]).0, self.es@[t].1), o)
+                && (o.is_some() ==> o.unwrap().0 < shape.0 && o.unwrap().1 < shape.1 && r.at(o.unwrap().0 as int, o.unwrap().1 as int) == self.es@[t].2),
+            forall|a: int, b: int| #[trigger] has(r.es@, a, b) ==> exists|t: int| 0 <= t < self.es@.len() && f.ensures(((#[trigger] self.es@[t]).0, self.es@[t].1), Some((a as usize, b as usize))),
+    { unimplemented!() }
+
+    /// MatTrait's defaults: shape().0, shape().1
+    #[verifier::external_body] pub fn nrows(&self) -> (r: usize) ensures r == self.sh@.0 { unimplemented!() }
+    #[verifier::external_body] pub fn ncols(&self) -> (r: usize) ensures r == self.sh@.1 { unimplemented!() }
+
+    /// the submatrix on rows i0..i1 and columns j0..j1
+    pub fn submat(&self, rows: core::ops::Range<usize>, cols: core::ops::Range<usize>) -> (r: SpMat)
+        requires self.wf(),
+//@if B
+            rows.start <= rows.end <= self.sh@.0, cols.start <= cols.end <= self.sh@.1,
+//@endif
+        ensures rows.start <= rows.end <= self.sh@.0, cols.start <= cols.end <= self.sh@.1, r.wf(), r.sh@ == ((rows.end - rows.start) as usize, (cols.end - cols.start) as usize),
+            forall|a: int, b: int| 0 <= a < rows.end - rows.start && 0 <= b < cols.end - cols.start ==> #[trigger] r.at(a, b) == self.at(a + rows.start, b + cols.start),
+    //@body impl/SpMat/submat for_iter=1
+    //@+ sig
+    //@| fn submat(&self, rows: Range<usize>, cols: Range<usize>) -> SpMat<R>
+    //@+ closure 0 typed
+    //@| i: usize, j: usize
+    //@+ closure 0
+    //@| -> (o: Option<(usize, usize)>) ensures o == (if i0 <= i < i1 && j0 <= j < j1 { Some(((i - i0) as usize, (j - j0) as usize)) } else { None })
+    //@+ post
+    //@| assert forall|a: int, b: int| 0 <= a < i1 - i0 && 0 <= b < j1 - j0 implies #[trigger] __ret.at(a, b) == self.at(a + i0, b + j0) by {
+    //@|     if has(self.es@, a + i0, b + j0) { let t = pos(self.es@, a + i0, b + j0); lemma_val(self.es@, t); assert(self.es@[t].0 == a + i0 && self.es@[t].1 == b + j0); }
+    //@|     else if has(__ret.es@, a, b) { let t = choose|t: int| 0 <= t < self.es@.len() && (#[trigger] self.es@[t]).0 - i0 == a && self.es@[t].1 - j0 == b && i0 <= self.es@[t].0 < i1 && j0 <= self.es@[t].1 < j1; assert(has(self.es@, a + i0, b + j0)); }
+    //@| }
+
+    pub fn submat_rows(&self, rows: core::ops::Range<usize>) -> (r: SpMat)
+        requires self.wf(),
+//@if B
+            rows.start <= rows.end <= self.sh@.0,
+//@endif
+        ensures rows.start <= rows.end <= self.sh@.0, r.wf(), r.sh@ == ((rows.end - rows.start) as usize, self.sh@.1),
+            forall|a: int, b: int| 0 <= a < rows.end - rows.start && 0 <= b < self.sh@.1 ==> #[trigger] r.at(a, b) == self.at(a + rows.start, b),
+    //@body impl/SpMat/submat_rows
+    //@+ sig
+    //@| fn submat_rows(&self, rows: Range<usize>) -> SpMat<R>
+    pub fn submat_cols(&self, cols: core::ops::Range<usize>) -> (r: SpMat)
+        requires self.wf(),
+//@if B
+            cols.start <= cols.end <= self.sh@.1,
+//@endif
+        ensures cols.start <= cols.end <= self.sh@.1, r.wf(), r.sh@ == (self.sh@.0, (cols.end - cols.start) as usize),
+            forall|a: int, b: int| 0 <= a < self.sh@.0 && 0 <= b < cols.end - cols.start ==> #[trigger] r.at(a, b) == self.at(a, b + cols.start),
+    //@body impl/SpMat/submat_cols
+    //@+ sig
+    //@| fn submat_cols(&self, cols: Range<usize>) -> SpMat<R>
+
+    /// rows and columns renumbered: the entry at (i, j) moves to (p.at(i), q.at(j))
+    pub fn permute(&self, p: PermView, q: PermView) -> (r: SpMat)
+        requires self.wf(), p.wf(self.sh@.0 as int), q.wf(self.sh@.1 as int),
+        ensures r.wf(), r.sh@ == self.sh@,
+            forall|i: int, j: int| 0 <= i < self.sh@.0 && 0 <= j < self.sh@.1 ==> r.at(#[trigger] p.m@[i] as int, #[trigger] q.m@[j] as int) == self.at(i, j),
+    //@body impl/SpMat/permute for_iter=1
+    //@+ closure 0 typed
+    //@| i: usize, j: usize
+    //@+ closure 0
+    //@| -> (o: Option<(usize, usize)>) requires i < p.m@.len(), j < q.m@.len() ensures o == Some((p.m@[i as int], q.m@[j as int]))
+
+    pub fn permute_rows(&self, p: PermView) -> (r: SpMat)
+        requires self.wf(), p.wf(self.sh@.0 as int),
+        ensures r.wf(), r.sh@ == self.sh@, forall|i: int, j: int| 0 <= i < self.sh@.0 && 0 <= j < self.sh@.1 ==> #[trigger] r.at(p.m@[i] as int, j) == self.at(i, j),
+    //@body impl/SpMat/permute_rows
+    //@+ post
+    //@| assert forall|i: int, j: int| 0 <= i < self.sh@.0 && 0 <= j < self.sh@.1 implies #[trigger] __ret.at(p.m@[i] as int, j) == self.at(i, j) by { assert(id.m@[j] == j); assert(__ret.at(p.m@[i] as int, id.m@[j] as int) == self.at(i, j)); }
+    pub fn permute_cols(&self, q: PermView) -> (r: SpMat)
+        requires self.wf(), q.wf(self.sh@.1 as int),
+        ensures r.wf(), r.sh@ == self.sh@, forall|i: int, j: int| 0 <= i < self.sh@.0 && 0 <= j < self.sh@.1 ==> #[trigger] r.at(i, q.m@[j] as int) == self.at(i, j),
+    //@body impl/SpMat/permute_cols
+    //@+ post
+    //@| assert forall|i: int, j: int| 0 <= i < self.sh@.0 && 0 <= j < self.sh@.1 implies #[trigger] __ret.at(i, q.m@[j] as int) == self.at(i, j) by { assert(id.m@[i] == i); assert(__ret.at(id.m@[i] as int, q.m@[j] as int) == self.at(i, j)); }
 }
 } // verus!
 fn main() {}
